@@ -476,7 +476,14 @@ def mem2_newton_solver(
                 # The update may be too big as we are not decreasing the cost function
                 # magnitude. We will decrease the step size we take - but keep the
                 # direction of the step the same.
-                inverse_relative_update = magnitude_current_iterate / magnitude_update
+                if magnitude_update > 0.0:
+                    inverse_relative_update = (
+                        magnitude_current_iterate / magnitude_update
+                    )
+                else:
+                    # A vanishing update (stalled iteration) would otherwise
+                    # raise a ZeroDivisionError inside the jitted solver.
+                    inverse_relative_update = line_search_factor / 2
                 line_search_factor = min(  # type: ignore
                     inverse_relative_update, line_search_factor / 2
                 )
